@@ -8,7 +8,7 @@ BASE2 = {"CertKeys": '{"k1","k2"}', "EncKeys": '{"e1","e2"}', "Nonces": '{"n1","
 BASE3 = dict(BASE2, CertKeys='{"k1","k2","k3"}')
 
 
-def gen_cfg(name, consts, classes, depth, sw=False, nidl=False, fallback="Authorize"):
+def gen_cfg(name, consts, classes, depth, sw=False, nidl=False, fallback="FetchAny"):
     """Write a generator config into spec/ (idempotent) and return its file name."""
     txt = "SPECIFICATION Spec\nCONSTANTS\n"
     for k, v in consts.items():
@@ -28,7 +28,7 @@ def beh_cfg(consts, sw=False, nidl=False):
 GEN_CFGS = {}
 
 
-def G(tag, consts, classes, depth, num, props, sw=False, nidl=False, fallback="Authorize"):
+def G(tag, consts, classes, depth, num, props, sw=False, nidl=False, fallback="FetchAny"):
     name = "RegistryGen_%s.cfg" % tag
     GEN_CFGS[name] = gen_cfg(name, consts, classes, depth, sw, nidl, fallback)[1]
     return dict(module="RegistryGen.tla", cfg=name, depth=depth, num=num, props=props, tag=tag,
@@ -72,9 +72,9 @@ FAMILY = dict(
         G("C01b", BASE3, ["Authorize", "Token", "Remove", "Regw", "FetchAuth", "FetchNear"], 14,
           dict(quick=100, thorough=2000), ["C01"], sw=True),
         G("C06a", BASE2, ["Token", "Age", "Authorize", "Remove", "FetchAuth", "FetchNear", "Tamper"], 12,
-          dict(quick=120, thorough=2500), ["C06"], sw=True, fallback="Token"),
+          dict(quick=120, thorough=2500), ["C06"], sw=True),
         G("C06b", BASE2, ["Token", "Age", "Authorize", "FetchAuth", "FetchNear", "Tamper"], 12,
-          dict(quick=80, thorough=1500), ["C06"], sw=False, fallback="Token"),
+          dict(quick=80, thorough=1500), ["C06"], sw=False),
         G("C03a", BASE2, ["Submit", "SubmitWin", "CreateRequest", "Authorize"], 10,
           dict(quick=150, thorough=3000), ["C03"]),
         G("C05a", BASE3, ["Authorize", "Nid", "Remove", "GenCerts", "GenNear"], 12,
